@@ -1,13 +1,31 @@
 (* C04 - certificates are valid witnesses and appear exactly when promised.
    Statements only; proofs are [exact].
-   PROVED so far (every valid SAT oracle, every compact component, every encoder): the model a
-   component query returns denotes an extension of the component that contains the argument
-   (credulous YES: complete extension for CO/PR, stable for ST) resp. omits it (skeptical NO, ST),
-   and no model is returned in the other cases.
-   NOT YET PROVED in Coq (tied by trace replay + brute-force oracle on every run): completion of
-   the certificate on the other components, GR, and the PR / SST / STG / ID loops. *)
+   PROVED (every valid SAT oracle, every threshold >= 1, every admissible encoder, every good view
+   of a framework of any size, every fuel, every list of arguments):
+     - C04_certificates: for EVERY acceptance entry point of [run_query] (q = QDC or QDS; [qpol q]
+       is true for QDC) a completed run returns a certificate only when the certificate flag is
+       set and the status is the witnessed one (credulous YES, skeptical NO), and then always
+       ([None] with the flag set forces the other status); the certificate is a duplicate-free
+       list of arguments of F, an extension of the WHOLE framework under the semantics, which
+       contains a listed argument (credulous) resp. none of them (skeptical).  This includes the
+       completion of the certificate on the remaining components.
+     - C04_*_witness_component_partial (kept): the per-component steps.
+   NOT proved in Coq (by design): that the Rust code behaves like Model.Solvers (the tie), and
+   the translation of ids to labels.  Termination and fuel: see C18.
+   Vocabulary of the whole-framework theorems (Proofs/TopBase.v, TopMax.v, SolverTop.v):
+     view_good g F   the view g (iteration orders of an AAFramework) presents the framework F;
+                     instances: view_of_af of any compact framework, view_of_fw of any store
+                     reachable from new_with_labels by any update history (C01_good_view_compact, C01_good_view_store);
+     supported s q   the trait implementation exists (all but CO-SE, CO-DS, PR-DC, for which the
+                     library delegates to another solver type and the model has no entry point);
+     enc_ok s e      the encoder may be used with the solver type (CO, SST: complete-based; STG:
+                     conflict-free based; PR, ID: complete- or admissible-based; GR, ST: any);
+     al_ok s q F al  nothing for SE queries and for GR / ST; otherwise the listed ids are arguments
+                     of F (the list may be empty and may contain repetitions).
+*)
 From Crusta Require Import Spec.AF Sat.Cnf Sat.Prog Model.Encoders Model.Graph Model.Solvers.
 From Crusta Require Import Proofs.EncSpec Proofs.SolverBasics Proofs.SolverCc Proofs.SolverThms.
+From Crusta Require Import Proofs.TopBase Proofs.TopMax Proofs.SolverTop.
 Open Scope prog_scope.
 
 Theorem C04_complete_witness_component_partial : forall oracle thr, 1 <= thr -> valid_oracle oracle ->
@@ -27,5 +45,21 @@ Theorem C04_stable_witness_component_partial : forall oracle thr, 1 <= thr -> va
   on_done (st_cc oracle thr c la pol) (st_cc_post c n la pol).
 Proof. exact SolverThms.stable_component. Qed.
 
+Theorem C04_certificates : forall oracle thr g F,
+  valid_oracle oracle -> 1 <= thr -> view_good g F ->
+  forall s q e al fuel cert st0,
+  q <> QSE -> supported s q -> enc_ok s e -> al_ok s q F al ->
+  match run_query oracle thr fuel s q cert e g al st0 with
+  | Done (OAcc b (Some L)) _ =>
+      cert = true /\ b = qpol q /\ ext s F L /\ NoDup L /\ incl L (args F) /\
+      (if qpol q then exists a, In a al /\ In a L else forall a, In a al -> ~ In a L)
+  | Done (OAcc b None) _ => cert = true -> b = negb (qpol q)
+  | Done (OExt _) _ => False
+  | Panic _ => False
+  | _ => True
+  end.
+Proof. exact SolverTop.top_certificates. Qed.
+
 Print Assumptions C04_complete_witness_component_partial.
 Print Assumptions C04_stable_witness_component_partial.
+Print Assumptions C04_certificates.
